@@ -629,6 +629,93 @@ class FG:
         if wide: self.emit(op, self.dst64(), self.src64(), dv)
         else: self.emit(op, self.dst32(), self.src32(), dv)
 
+    IMM_OPS = ['add', 'sub', 'mul', 'div', 'udiv', 'mod', 'umod', 'and', 'or', 'xor', 'lsh', 'rsh', 'ursh',
+               'eq', 'ne', 'lt', 'le', 'gt', 'ge', 'ult', 'ule', 'ugt', 'uge']
+
+    def special_imm(self, bits):
+        """an immediate on one of the boundaries algebraic rewrites case-split on: 0, +-1, +-2, powers of two and
+        their neighbours, minimum / maximum of the width (and of the other width)"""
+        r = self.rng
+        k = r.random()
+        if k < 0.2: return r.choice([0, 1, -1, 2, -2])
+        if k < 0.55: return 1 << r.randrange(1, bits)                       # incl. the sign bit of the width
+        if k < 0.7:
+            e = r.randrange(1, bits)
+            return r.choice([(1 << e) - 1, (1 << e) + 1, -(1 << e), -(1 << e) + 1, -(1 << e) - 1])
+        if k < 0.85:
+            return r.choice([(1 << (bits - 1)) - 1, -(1 << (bits - 1)), (1 << bits) - 1, 0x100000000, 0x100000001,
+                             0x7fffffff, -0x80000000, 0xffffffff, 0x7fffffffffffffff, -0x8000000000000000])
+        return r.choice([3, 5, 6, 7, 9, 10, 12, 100, 1000, -3, -5, -7, -8, -10])
+
+    def g_imm_arith(self):
+        """every binary integer opcode (64- and 32-bit form) with an IMMEDIATE special value as second or first
+        source, executed on an input aimed at the other side of the case split: negative values that are not
+        multiples of a power of two, boundary constants, unknown registers.  A burst of such insns works on one
+        input; results are often shown to the outside world right away (link-time and generator-time algebraic
+        rewrites act on exactly these insns)."""
+        r = self.rng
+        t = self.new_local('ia')
+        T = R(t)
+        k = r.random()
+        if k < 0.45:
+            # negative (in 64 and, for k < 32, in 32 bits), low bits unknown: mostly NOT a multiple of a power of two
+            self.emit('or', T, self.X_(), Imm(-(1 << r.choice([r.randrange(0, 32), r.randrange(0, 64)]))))
+        elif k < 0.55:
+            self.emit('or', T, self.X_(), Imm(r.choice([1, 3, 5, 7])))          # odd, any sign
+        elif k < 0.7:
+            self.emit('mov', T, Imm(r.choice(BOUNDARY + [-3, -5, -7, -9, -15, -17, -1000001])))
+        elif k < 0.8 and self.O:
+            self.emit('mov', T, R(r.choice(self.O)))
+        else:
+            self.emit('mov', T, self.X_())
+        for _ in range(r.choice([1, 2, 3, 4, 6])):
+            self.imm_insn(T)
+
+    def imm_insn(self, T):
+        r = self.rng
+        wide = r.random() < 0.55
+        bits = 64 if wide else 32
+        base = r.choice(self.IMM_OPS + ['mul', 'div', 'udiv', 'mod', 'umod', 'div', 'mod'])
+        op = base + ('' if wide else 's')
+        divlike = base in ('div', 'udiv', 'mod', 'umod')
+        shift = base in ('lsh', 'rsh', 'ursh')
+        rev = r.random() < 0.2                     # immediate as FIRST source
+        S = T
+        if rev and divlike:
+            # run-time divisor: never 0 and never -1
+            S = R(self.new_local('id'))
+            self.emit('and', S, T, Imm(r.choice([0xff, 0xffff, 0x7ffffffe])))
+            self.emit('or', S, S, Imm(2))
+            if base in ('div', 'mod') and r.random() < 0.4: self.emit('sub', S, Imm(0), S)
+        elif rev and shift:
+            S = R(self.new_local('id'))
+            self.emit('and', S, T, Imm(bits - 1))
+        while True:
+            if shift and not rev:
+                v = r.choice([0, 1, 2, bits // 2, bits - 2, bits - 1, r.randrange(0, bits)])
+            else:
+                v = self.special_imm(bits)
+            lo = v & ((1 << bits) - 1)
+            if divlike and not rev:
+                if lo == 0: continue
+                if base in ('div', 'mod') and lo == (1 << bits) - 1: continue
+            if divlike and rev and base in ('div', 'mod') and lo == 1 << (bits - 1):
+                continue                          # MIN / -1 must not happen (divisor is never -1 anyway; keep clear)
+            break
+        a, b = (Imm(v), S) if rev else (S, Imm(v))
+        dst = self.X_() if wide else self.W_()
+        self.emit(op, dst, a, b)
+        if r.random() < self.opts.get('p_imm_log', 0.4):
+            if wide:
+                self.emit('call', Ref('p_exv'), Ref('exv'), dst, S)
+            else:
+                e = self.new_local('ie')
+                self.emit(r.choice(['ext32', 'uext32']), R(e), dst)
+                self.emit('call', Ref('p_exv'), Ref('exv'), R(e), S)
+        self.p.features.add('imm-arith:' + op + ('-rev' if rev else ''))
+        if not rev and not shift and lo != 0 and lo & (lo - 1) == 0 and lo != 1:
+            self.p.features.add('imm-arith:pow2:' + op)
+
     def g_load(self):
         ty = self.rng.choice(INT_TYPES)
         m = self.mem_operand(ty)
@@ -915,7 +1002,7 @@ class FG:
         r = self.rng
         kinds = [(self.g_alu64, 14), (self.g_alu32, 12), (self.g_neg, 2), (self.g_ext, 6), (self.g_cmp, 7),
                  (self.g_ext_chain, 3), (self.g_reload, 3), (self.g_overlap, 5),
-                 (self.g_shift, 7), (self.g_div, 7), (self.g_load, 8), (self.g_store, 9), (self.g_mov, 5),
+                 (self.g_shift, 7), (self.g_div, 7), (self.g_imm_arith, self.opts.get('w_imm_arith', 8)), (self.g_load, 8), (self.g_store, 9), (self.g_mov, 5),
                  (self.g_ovf, 2), (self.g_local_alloca, 2), (self.g_counted_loop, 3), (self.g_call_ext, 3),
                  (self.g_call_mir, self.opts.get('w_call', 4)), (self.g_self_call, 1)]
         if self.LD or any(self.CR.values()):
